@@ -127,6 +127,36 @@ def build(case):
     raise ValueError(k)
 
 
+def describe(desc):
+    """the constructor inputs as the constructors read them off a RepetitionCodeDescription (public accessors only):
+    index lists, gate / park layers, active-ancilla lists, refocusing flag (added for LIBBUILD; same shape as
+    harness/impl/c09_impl.py describe)"""
+    nseq = desc.gate_sequence_count
+    nb = []
+    for a in desc.detector_qubit_indices:
+        g = desc.get_parity_group(element=desc.get_element(index=a))[0]
+        nb.append([int(a)] + [int(desc.get_index(q)) for q in g.data_ids])
+    return {
+        'qubits': [int(i) for i in desc.qubit_indices],
+        'prepare': [int(i) for i in desc.prepare_qubit_indices],
+        'measure': [int(i) for i in desc.measure_qubit_indices],
+        'data': [int(i) for i in desc.data_qubit_indices],
+        'ancilla': [int(i) for i in desc.ancilla_qubit_indices],
+        'measure_data': [int(i) for i in desc.measure_data_qubit_indices],
+        'measure_ancilla': [int(i) for i in desc.measure_ancilla_qubit_indices],
+        'rotation_data': [int(i) for i in desc.rotation_data_qubit_indices],
+        'rotation_ancilla': [int(i) for i in desc.rotation_ancilla_qubit_indices],
+        'detector': [int(i) for i in desc.detector_qubit_indices],
+        'observable': [int(i) for i in desc.observable_qubit_indices],
+        'calibration': [int(i) for i in desc.calibration_qubit_indices],
+        'gates': [[[int(a), int(b)] for a, b in desc.get_gate_sequence_indices(i)] for i in range(nseq)],
+        'active': [[int(a) for a in desc.get_active_ancilla_indices(i)] for i in range(nseq)],
+        'parks': [[int(a) for a in desc.get_park_sequence_indices(i)] for i in range(nseq)],
+        'neighbours': nb,
+        'refocus': bool(desc.contains_qubit_refocusing),
+    }
+
+
 def sig(ops):
     return [[type(o).__name__, [[c.id, c.channel.name] for c in o.channel_identifiers]] for o in ops]
 
@@ -151,6 +181,8 @@ def handle(case):
         out['qubits'] = qubits
         if 'structure' in want:
             out['structure'] = extract(c.circuit_structure)
+        if 'desc' in want and desc is not None:          # constructor inputs (LIBBUILD); only on request
+            out['desc'] = describe(desc)
         if 'plain' in want:
             out['plain'] = {'ops': observe(c), 'duration': ticks(c.duration), 'acq': acq(c, qubits)}
             out['plain']['stim'], out['plain']['stim_flat'] = stim_text(c)
